@@ -17,9 +17,9 @@
    The state record differs from RegionCore.rst only in the region environment.
 
    The model follows the code with fixes/regions-1..6 (in the pinned tree) and fixes/regions-7
-   (the ghost variables of an unknown region are forgotten whenever its dynamic type changes or
-   is dropped) and regions-8 (a store that cannot be written to the ghost variables still updates
-   allocation sites and tags) and regions-9 (the store that reinterprets a region of integers as a
+   (ref_store forgets the ghost variables an unknown region gets when it sets or changes its
+   dynamic type, and writes the value to them), regions-8 (a store that cannot be written to
+   the ghost variables still updates allocation sites and tags) and regions-9 (the store that reinterprets a region of integers as a
    region of references leaves the region "may be initialised") applied.  No proofs here. *)
 From Coq Require Import ZArith NArith List Bool Lia.
 From CrabV Require Import Base.ZInf Scalar.Itv Scalar.SmallRange Scalar.Boolean Ir.Syntax
@@ -175,10 +175,7 @@ Definition null_of (s : rst2) (p : var) : bv := is_null (s_base s) (gv_var (gv_o
 Definition u_init (g : var) (s : rst2) : option rval2 :=
   if sr_leq (cnt s g) ROneOrMore then None
   else
-    (* regions-7: the ghost variables the region had under its previous dynamic type are dead *)
-    let b := gv_forget (gv_of s g) (EMap (s_base s)) in
-    let s1 := set_tg (set_al (set_info s g (RZero, BFalse, static_ty (k_kind C g))) g ds_empty) g ds_empty in
-    Some (wbase s1 b).
+    Some (Some (set_tg (set_al (set_info s g (RZero, BFalse, static_ty (k_kind C g))) g ds_empty) g ds_empty)).
 
 (* ---- ref_make; [size] is a constant or an integer variable ---- *)
 Definition u_mk (p g : var) (site : Z) (size : operand) (s : rst2) : rval2 :=
@@ -246,20 +243,24 @@ Definition mem_write (s : rst2) (rg : gvars) (v : sval) (weak : bool) (e : env) 
    SAbort = CRAB_ERROR, SNoWrite = the value is not written to the base domain (but allocation
    sites, tags and the initialised flag are updated: regions-8), SGo = go on with this info
    (reinterpret = the old ghost variables are forgotten first) *)
-Inductive sdec := SAbort | SNoWrite (forget_first : bool) | SGo (newty : tyv) (reinterpret : bool).
+Inductive sdec :=
+| SAbort | SNoWrite (forget_first : bool)
+| SKeep                      (* the dynamic type does not change *)
+| SFirst (newty : tyv)       (* the first store sets the dynamic type *)
+| SReint.                    (* a region of integers becomes a region of references *)
 Definition store_decide (kg : vk) (t : tyv) (v : sval) : sdec :=
   if tracked_unk kg then
     match t with
     | TyBot => SAbort
     | TyTop => SNoWrite true
-    | Ty TUnk => SGo (Ty (sval_rty v)) false
+    | Ty TUnk => SFirst (Ty (sval_rty v))
     | Ty c =>
-      if rty_eqb c (sval_rty v) then SGo t false
+      if rty_eqb c (sval_rty v) then SKeep
       else if rty_eqb c TRef then SNoWrite false
-      else if sval_is_ref v then SGo (Ty TRef) true
+      else if sval_is_ref v then SReint
       else SNoWrite true
     end
-  else SGo t false.
+  else SKeep.
 
 Definition store_side (s : rst2) (g : var) (v : sval) (strong : bool) : rst2 :=
   if strong then
@@ -289,15 +290,22 @@ Definition u_store (p g : var) (v : sval) (s : rst2) : option rval2 :=
       let b := if ff then gv_forget (gv_of s g) (EMap (s_base s)) else EMap (s_base s) in
       let s1 := store_side s g v strong in
       Some (wbase (set_info s1 g (i_cnt old, BTop, i_ty old)) b)
-    | SGo nt reint =>
-      let b0 := if reint then gv_forget (gv_of s g) (EMap (s_base s)) else EMap (s_base s) in
-      (* regions-7: the type is recorded before the value is written, so that the value goes to
-         the ghost variables the region has under its new type; the first store into a region
-         of dynamic type region(unknown) only sets the type *)
+    | SKeep =>
+      let sn := set_info s g (i_cnt old, BTop, i_ty old) in
+      let b := EMap (s_base s) in
+      let b2 := if tracked kg (i_ty old) then mem_write sn (gv_of sn g) v (negb strong) b else b in
+      Some (wbase (store_side sn g v strong) b2)
+    | SFirst nt =>
+      (* regions-7: when the store sets or changes the dynamic type, the new type is recorded at
+         once and the ghost variables the region has under it are forgotten: they may describe an
+         earlier life of the region.  The value is then written to them. *)
       let sn := set_info s g (i_cnt old, BTop, nt) in
-      let b1 := if tracked kg (i_ty old) then mem_write sn (gv_of sn g) v (negb strong) b0 else b0 in
-      let s1 := store_side sn g v strong in
-      Some (wbase s1 b1)
+      let b1 := gv_forget (gv_of sn g) (EMap (s_base s)) in
+      Some (wbase (store_side sn g v strong) (mem_write sn (gv_of sn g) v (negb strong) b1))
+    | SReint =>
+      let sn := set_info s g (i_cnt old, BTop, Ty TRef) in
+      let b1 := gv_forget (gv_of sn g) (gv_forget (gv_of s g) (EMap (s_base s))) in
+      Some (wbase (store_side sn g v strong) (mem_write sn (gv_of sn g) v (negb strong) b1))
     end.
 
 (* ---- ref_gep: [addr] = address(ref1) + offset, [offe] = offset(ref1) + offset ---- *)
@@ -319,8 +327,7 @@ Definition u_gep (p2 g2 p1 g1 : var) (offset addr offe : linexp) (s : rst2) : rv
 (* ---- region_copy (statically equal types) ---- *)
 Definition u_rcopy (l r : var) (s : rst2) : rval2 :=
   let info := s_rgn s r in
-  (* regions-7: the ghost variables of the old dynamic type of the destination are dead *)
-  let b0 := gv_forget (gv_of s l) (EMap (s_base s)) in
+  let b0 := EMap (s_base s) in
   let s1 := set_info s l info in
   let s2 := set_al s1 l (s_alloc s1 r) in
   let s3 := set_tg s2 l (s_tags s2 r) in
@@ -394,12 +401,12 @@ Definition u_i2r (x g p : var) (s : rst2) : rval2 :=
 (* ---- operator-= / forget ---- *)
 Definition u_havoc (v : var) (s : rst2) : rval2 :=
   let k := k_kind C v in
-  (* regions-7: the ghost variables are forgotten while the dynamic type is still known *)
-  let b := gv_forget (gv_of s v) (EMap (s_base s)) in
   let s1 := if vk_is_rgn k then set_info s v ri2_top else s in
   let s2 := if vk_is_rgn k || vk_is_ref k then set_al s1 v ds_top else s1 in
   let s3 := set_tg s2 v ds_top in
-  wbase s3 b.
+  (* the ghost variables are those of the type the variable has after it has been removed from
+     the region environment *)
+  wbase s3 (gv_forget (gv_of s3 v) (EMap (s_base s3))).
 Fixpoint u_forget (vs : list var) (s : rst2) : rval2 :=
   match vs with
   | [] => Some s
